@@ -1206,6 +1206,11 @@ func do_JUMP_ABSOLUTE(vm *Vm, target int32) error {
 func do_FOR_ITER(vm *Vm, delta int32) error {
 	r, finished := py.Next(vm.TOP())
 	if finished != nil {
+		// Only StopIteration means the iterator is exhausted -
+		// any other error propagates out of the loop
+		if !py.IsException(py.StopIteration, finished) {
+			return finished
+		}
 		vm.DROP()
 		vm.frame.Lasti += delta
 	} else {
